@@ -355,14 +355,34 @@ func longLivedTypes(p *Prog) map[string]bool {
 			mark(u.Elem(), d+1)
 		}
 	}
-	for _, n := range structs {
-		st := n.Underlying().(*types.Struct)
-		for i := 0; i < st.NumFields(); i++ {
-			mark(st.Field(i).Type(), 0)
+	// fixpoint: a struct held only by per-call temporaries (the chunk builder inside the feedback under construction)
+	// is a temporary itself
+	temp := map[string]bool{}
+	for iter := 0; iter < 8; iter++ {
+		held = map[string]bool{}
+		for _, n := range structs {
+			if temp[typeKey(n)] {
+				continue
+			}
+			st := n.Underlying().(*types.Struct)
+			for i := 0; i < st.NumFields(); i++ {
+				mark(st.Field(i).Type(), 0)
+			}
 		}
-	}
-	for _, t := range p.InterceptorTypes() {
-		held[typeKey(t)] = true
+		for _, t := range p.InterceptorTypes() {
+			held[typeKey(t)] = true
+		}
+		changed := false
+		for _, n := range structs {
+			// only unexported types propagate: an exported type (Registry) is held by the user for as long as they like
+			if k := typeKey(n); !held[k] && !temp[k] && !isExportedName(n.Obj().Name()) {
+				temp[k] = true
+				changed = true
+			}
+		}
+		if !changed {
+			break
+		}
 	}
 	return held
 }
@@ -477,6 +497,45 @@ func runEngineE(p *Prog, o *obls) {
 			o.ok("E1", fk, pos, "grows on a traffic path without a live shrink, but its key type has at most 2^16 values (key-domain bounded)")
 			continue
 		}
+		// capacity-guarded growth: every traffic-path append sits on the true branch of `len(c) < limit` (or `<=`) where the
+		// limit is a constant or a field fixed at construction — the container fills up to the limit and is then re-used
+		capGuarded := len(tg) > 0
+		for _, g := range tg {
+			st, isSt := g.at.(*ssa.Store)
+			if !isSt || g.kind != "append" {
+				capGuarded = false
+				break
+			}
+			okG := false
+			for _, f := range dominatingFactsInstr(st) {
+				f = normFact(f)
+				bo, ok := f.cond.(*ssa.BinOp)
+				if !ok || !f.truth || (bo.Op != token.LSS && bo.Op != token.LEQ) {
+					continue
+				}
+				lc, ok := p.origin(bo.X).(*ssa.Call)
+				if !ok || builtinName(&lc.Call) != "len" || !loadsField(p, lc.Call.Args[0], fk) {
+					continue
+				}
+				if _, isC := constInt(p.origin(bo.Y)); isC {
+					okG = true
+				}
+				if u, ok := p.origin(bo.Y).(*ssa.UnOp); ok && u.Op == token.MUL {
+					if fa, ok := u.X.(*ssa.FieldAddr); ok {
+						if fv := fieldOfAddr(fa); fv != nil && p.constructionOnlyField(fv) {
+							okG = true
+						}
+					}
+				}
+			}
+			if !okG {
+				capGuarded = false
+			}
+		}
+		if capGuarded {
+			o.ok("E1", fk, pos, "grows on a traffic path only while its length is below a limit fixed at construction (then slots are re-used)")
+			continue
+		}
 		// per-stream side table: every traffic-path insert uses the key of an entry of a registry map of the same owner
 		// (the loop ranges over it) that itself only grows at bind time, and the unbind that shrinks the registry shrinks
 		// this table too — bounded by the number of bound streams
@@ -527,6 +586,45 @@ func runEngineE(p *Prog, o *obls) {
 				if !isLenC(bo.X) && !isLenC(bo.Y) {
 					continue
 				}
+				// the other side is a threshold: a constant, a configured field, a parameter — not something computed
+				// from the container itself (`idx == len(entries)` after a search is a position test, not a trigger)
+				other := bo.Y
+				if isLenC(bo.Y) {
+					other = bo.X
+				}
+				var thresholdLike func(v ssa.Value, d int) bool
+				thresholdLike = func(v ssa.Value, d int) bool {
+					if d > 4 {
+						return false
+					}
+					switch x := p.origin(v).(type) {
+					case *ssa.Const, *ssa.Parameter, *ssa.FreeVar, *ssa.Global:
+						return true
+					case *ssa.UnOp:
+						if x.Op == token.MUL {
+							if fa, ok := x.X.(*ssa.FieldAddr); ok {
+								return fieldKeyAddr(fa) != fk
+							}
+							_, isG := x.X.(*ssa.Global)
+							return isG
+						}
+						return thresholdLike(x.X, d+1)
+					case *ssa.BinOp:
+						return thresholdLike(x.X, d+1) && thresholdLike(x.Y, d+1)
+					case *ssa.Convert:
+						return thresholdLike(x.X, d+1)
+					case *ssa.ChangeType:
+						return thresholdLike(x.X, d+1)
+					case *ssa.Call:
+						if bn := builtinName(&x.Call); bn == "cap" || bn == "len" {
+							return !loadsField(p, x.Call.Args[0], fk) || bn == "cap"
+						}
+					}
+					return false
+				}
+				if !thresholdLike(other, 0) {
+					continue
+				}
 				isShrink := func(in ssa.Instruction) bool {
 					for _, s := range c.shrink {
 						if s.at == in {
@@ -547,7 +645,25 @@ func runEngineE(p *Prog, o *obls) {
 					}
 				}
 				key := fmt.Sprintf("%s@%s", fk, funcKey(fn))
-				if len(miss) > 0 {
+				// E3b: the trigger is tested after every append — no path from the append to a return goes around the
+				// test (an early return between them leaves the length at the threshold; the next append passes it)
+				testIf := b.Instrs[len(b.Instrs)-1]
+				var around []string
+				if g.at.Parent() == fn && canReach(g.at, testIf) {
+					isTest := func(in ssa.Instruction) bool { return in == testIf }
+					for _, rb := range fn.Blocks {
+						last := rb.Instrs[len(rb.Instrs)-1]
+						if _, isRet := last.(*ssa.Return); !isRet || rb == fn.Recover {
+							continue
+						}
+						if pathAvoiding(g.at, last, isTest) {
+							around = append(around, p.instrPos(last))
+						}
+					}
+				}
+				if len(around) > 0 {
+					o.bad("E3", key, p.instrPosV(bo), fmt.Sprintf("the container is processed when its length equals a threshold (%s), but the return at %s is reached from the append at %s without passing that test: the length stays at the threshold, the next append passes it, the equality never holds again and the container grows with every packet", valueString(bo), around[0], p.instrPos(g.at)))
+				} else if len(miss) > 0 {
 					o.bad("E3", key, p.instrPosV(bo), fmt.Sprintf("the container is processed when its length equals a threshold (%s), but on some path from that branch (to the return at %s) it is not reset: once the length has passed the threshold the equality never holds again and the container grows with every packet", valueString(bo), miss[0]))
 				} else {
 					o.ok("E3", key, p.instrPosV(bo), "every path from the length==threshold branch resets the container")
